@@ -100,7 +100,7 @@ def enum_boundary(tier):
             yield {'spec': spec, 'light': True, 'minimal': True, 'optsets': [[1, 1, 1], [1, 0, 0]], 'name': name + '/two-option-sets'}
             continue
         yield {'spec': spec, 'light': True, 'name': name}
-    for total in (65537, 131073, 1 << 20) + ((3 * (1 << 18), (1 << 20) + 1, 1 << 21) if tier != 'quick' else ()):
+    for total in (65537, 131073, 1 << 20, 1000000, 100000) + ((3 * (1 << 18), (1 << 20) + 1, 1 << 21) if tier != 'quick' else ()):
         # bags whose length before the checksum is exactly a block boundary (+1) of anything that works block by block
         yield {'spec': boccases.bag_of_total_length(total), 'light': True, 'minimal': True, 'optsets': [[0, 1, 0], [1, 1, 1]], 'name': 'bag-length=%d' % total}
     if tier == 'quick':
